@@ -71,6 +71,7 @@ def shards(tier, seed):
         out.append(("dimspecs", cfg))
         out.append(("warm", cfg, "containers"))
         out.append(("objhist", cfg))
+        out.append(("checkbind", cfg))
         if cfg != "autoreduce":
             out.append(("qclosure", cfg))
         if tier != "quick":
@@ -465,7 +466,7 @@ def run_qclosure(acc, cfg, tier):
 
 
 def run_object_histories(acc, cfg):
-    """the predicates of ONE quantity object after a history of in-place operations on it (its unit container is
+    """the ureg.check decorator on a 3-parameter function under every positional / keyword-order / omitted call form and every right/wrong assignment of the passed values, the predicates of ONE quantity object after a history of in-place operations on it (its unit container is
     replaced, its memoised dimensionality has to follow): every chain of <= 2 operations, predicates read first"""
     import numpy as np
 
@@ -511,6 +512,50 @@ def run_object_histories(acc, cfg):
                         break
     acc.outcome("object-histories")
     acc.sample({"clause": "object-history", "cfg": cfg, "example": ["check('[length]')", "q /= Q(2, 's')", "q.ito_root_units()", "check('[length]') must now be False"]})
+
+
+def run_check_binding(acc, cfg):
+    """ureg.check compares every argument with the dimension declared for ITS parameter, however the call binds them:
+    3 parameters (two with defaults) x every positional / keyword-order / omitted call form x every assignment of a
+    right-dimension or wrong-dimension value per passed argument"""
+    ureg = get_reg(cfg)
+    Q = ureg.Quantity
+    from pint.errors import DimensionalityError
+
+    names = ["p0", "p1", "p2"]
+    specs = ["[length]", "[time]", "[mass]"]
+    good = {"p0": Q(2, "kilometer"), "p1": Q(3, "minute"), "p2": Q(5, "pound")}
+    wrong = {"p0": [Q(2, "second"), Q(2, "gram")], "p1": [Q(3, "meter"), Q(3, "kilogram")], "p2": [Q(5, "inch"), Q(5, "hour")]}
+    seen = []
+
+    def f(p0, p1=good["p1"], p2=good["p2"]):
+        seen.append((p0, p1, p2))
+        return "called"
+
+    w = ureg.check(*specs)(f)
+    for npos in range(0, 4):
+        rest = names[npos:]
+        for r in range(len(rest) + 1):
+            for kws in itertools.permutations(rest, r):
+                passed = names[:npos] + list(kws)
+                if "p0" not in passed:
+                    continue
+                for choice in itertools.product(*[[("good", good[n])] + [("wrong", v) for v in wrong[n]] for n in passed]):
+                    vals = dict(zip(passed, choice))
+                    args = [vals[n][1] for n in names[:npos]]
+                    kwargs = {n: vals[n][1] for n in kws}
+                    must_raise = any(tag == "wrong" for tag, _ in vals.values())
+                    del seen[:]
+                    acc.ev()
+                    acc.nt(("check-binding", cfg, npos, kws, tuple(t for t, _ in choice), tuple(str(v.units) for _, v in choice)))
+                    o = outcome_of(lambda: w(*args, **kwargs))
+                    case = {"cfg": cfg, "declared": specs, "positional": npos, "keywords_in_call_order": list(kws), "values": {n: str(vals[n][1]) for n in passed}}
+                    if must_raise and o[0] != "dimerr":
+                        acc.violation(["decorator", "ureg.check", "wrong-dimension-accepted", "keyword-order" if len(kws) > 1 else "binding"], case, "DimensionalityError", o)
+                    if not must_raise and (o != ("ok", "called") or len(seen) != 1):
+                        acc.violation(["decorator", "ureg.check", "right-dimensions-refused-or-function-not-called", "keyword-order" if len(kws) > 1 else "binding"], case, "the call goes through", o)
+    acc.outcome("check-binding")
+    acc.sample({"clause": "decorator", "declared": specs, "call": "f(p2=5 lb, p0=2 km)", "expected": "goes through"})
 
 
 def run_triples(acc, cfg, tier):
@@ -700,6 +745,8 @@ def run_shard(acc, shard, tier, seed):
         run_qclosure(acc, shard[1], tier)
     elif kind == "objhist":
         run_object_histories(acc, shard[1])
+    elif kind == "checkbind":
+        run_check_binding(acc, shard[1])
     else:
         raise core.HarnessError(f"unknown shard {shard}")
 
@@ -738,6 +785,8 @@ def replay(rec):
             run_containers(acc, cfg, case["block"][0], case["block"][1], rec.get("tier", "quick"))
     elif site[0] == "object-history":
         run_object_histories(acc, cfg)
+    elif site[0] == "decorator":
+        run_check_binding(acc, cfg)
     elif site[0] == "closure" and site[1].startswith("Quantity"):
         run_qclosure(acc, cfg, rec.get("tier", "quick"))
     elif site[0] in ("equivalence", "closure"):
